@@ -52,6 +52,58 @@ var c07Hostile = []string{
 	"module m { namespace \"urn:m\"; prefix m; leaf 1bad { type string; } }", "submodule s { belongs-to m { prefix m; } }", "submodule s { }", "container c { }",
 }
 
+// c07AfterLastToken: complete texts whose only fault is found after the last token has been read
+// (symbol tables, name clashes, references checked by Parse): definitions named like the built-in
+// types, definitions repeated or shadowed in an inner scope, clashing siblings, keys and uniques that
+// name nothing, clashing prefixes.  Each must come back as a positioned error or as a tree.
+func c07AfterLastToken() []string {
+	hdr := "module m { namespace \"urn:m\"; prefix m; "
+	var out []string
+	add := func(body string) { out = append(out, hdr+body+" }") }
+	for _, t := range []string{"binary", "bits", "boolean", "decimal64", "empty", "enumeration", "identityref", "instance-identifier", "int8", "int16", "int32", "int64",
+		"leafref", "string", "uint8", "uint16", "uint32", "uint64", "union"} {
+		add("typedef " + t + " { type int32; }")
+		add("container c { typedef " + t + " { type string; } leaf l { type " + t + "; } }")
+		add("grouping g { typedef " + t + " { type string; } }")
+		add("grouping " + t + " { leaf l { type string; } } container c { uses " + t + "; }")
+	}
+	for _, kw := range []string{"typedef t { type string; }", "grouping g { leaf l { type string; } }", "identity i;", "feature f;", "extension e;",
+		"leaf l { type string; }", "container c { }", "rpc r { }", "notification n { }"} {
+		add(kw + " " + kw)                        // twice at top level
+		add("container outer { " + kw + " " + kw + " }") // twice in one scope (where the keyword is allowed there)
+		add(kw + " container outer { " + kw + " }") // inner scope shadows the outer definition
+		add("container outer { container inner { " + kw + " } " + kw + " }")
+	}
+	add("list li { key k; leaf other { type string; } }")
+	add("list li { key \"k k\"; leaf k { type string; } }")
+	add("list li { key k; leaf k { type string; } unique \"nothing/there\"; }")
+	add("list li { key k; leaf k { type empty; } }")
+	add("list li { key k; container k { } }")
+	add("import other { prefix m; }")
+	add("import a { prefix p; } import b { prefix p; }")
+	add("import m { prefix self; }")
+	add("include m;")
+	add("leaf l { type t; }")
+	add("leaf l { type p:t; }")
+	add("container c { uses nothing; }")
+	add("leaf l { type string; if-feature nothing; }")
+	add("identity i { base nothing; }")
+	add("leaf l { type leafref { path \"../[\"; } }")
+	add("leaf l { type string; must \"((\"; }")
+	add("augment \"/nothing\" { leaf l { type string; } }")
+	add("deviation \"/nothing\" { deviate not-supported; }")
+	add("choice ch { default nothing; leaf a { type string; } }")
+	add("leaf l { type enumeration { enum a; enum a; } }")
+	add("leaf l { type enumeration { enum a { value 1; } enum b { value 1; } } }")
+	add("leaf l { type bits { bit a { position 1; } bit b { position 1; } } }")
+	add("leaf l { type union; }")
+	add("leaf l { type enumeration; }")
+	add("leaf l { type decimal64; }")
+	add("leaf l { type identityref; }")
+	add("leaf l { type leafref; }")
+	return out
+}
+
 type c07Plan struct {
 	nPrefix, nEdit, nRandom int
 }
@@ -111,7 +163,7 @@ func (p *c07) inputs(tier string, seed int64, idx int) []string {
 		deep := strings.Repeat("x:a {", 10000)
 		ins = append(ins, deep, deep+strings.Repeat("}", 10000), deep+strings.Repeat("}", 9999), deep+strings.Repeat("}", 10001),
 			strings.Repeat("a ", 5000)+";", "a \""+strings.Repeat("x\n   ", 5000)+"\";", strings.Repeat("/* c */", 3000), strings.Repeat("a \"b\" + ", 2000)+"\"c\";")
-		return ins
+		return append(ins, c07AfterLastToken()...)
 	}
 	idx--
 	a, b, _ := p.layout(tier, seed)
